@@ -13,7 +13,8 @@ RULE = ("N in 2..48 odd and even (thorough to 96); complex fields: dense noise, 
         "Oracle: sum|U_out|^2 d_out^2 == sum|U_in|^2 d_in^2 (1e-9), P(a u + b v) == a P(u) + b P(v) (1e-9), finite "
         "output, input unchanged. Non-trivial = non-constant field and (m != 1 or z < 0). Distinct = canonical JSON."
         " Also: coincidences d2 ~ one-step spacing, d2 ~ d1, z ~ N d1^2 / wvl with relative offsets 0 .. 1e-3."
-        " Scalars also as one-element arrays (compared with the plain-number call to eps x largest kernel phase).")
+        " Scalars also as one-element arrays (compared with the plain-number call to eps x largest kernel phase)."
+        " Law threads: all four propagators, different geometries on one grid size.")
 ASSUMPTIONS = ["square grids, odd and even", "d_out: angularSpectrum=outputSpacing, oneStep=|lambda z/(N d1)|, twoStep=d2, lens=|lambda f/(N d1)|"]
 
 TOL = 1e-9
